@@ -308,6 +308,9 @@ def run(tier: str) -> Run:
     for n in (3, 4):
         for pattern in itertools.product(('below', 'on', 'above'), repeat=n):
             for later in (True, False):
+                if (('generic' if 'on' not in pattern else 'vertex on the cut') + (' t>=cut' if later else ' t<=cut')) in bad2:
+                    n_runs += 1
+                    continue  # (one counterexample per instance is reported; a broken clip makes every further pattern slow and adds nothing)
                 w = World(repo)
                 # distinct times within a level keep the polygon non-degenerate
                 tv = [F(level[p]) + (F(k, 10) if p != 'on' else 0) * (1 if p == 'above' else -1) for k, p in enumerate(pattern)]
